@@ -11,7 +11,8 @@ open Grol
 
 def suites : List (String × (String → String → CaseResult)) :=
   [ ("trie", TrieSuite.runCase),
-    ("sanitize", SanitizeSuite.runCase) ]
+    ("sanitize", SanitizeSuite.runCase),
+    ("autosave", AutoSaveSuite.runCase) ]
 
 structure DAcc where
   cases : Nat := 0
